@@ -12,6 +12,16 @@ def run(tier, replay=None):
     fams = props.c12_families(tier, vlib.seed(), ck=ck)
     vs = semcheck.run_families(ck, fams, props.c12_nontrivial)
     semcheck.binding_selftest(ck, vs)
+    # the tree the front end builds for a statement is the tree that was written, in every context (no context-dependent or
+    # operand-dependent rewriting before the compiler sees it): resolved trees against CalcScope.tla, on a stable sample
+    import scopecheck
+    seed = vlib.seed()
+    pool = [s for fam in fams for s in fam[1]]
+    pool.sort(key=lambda s: props.shash((s["id"], seed)))
+    chains = [s for s in pool if 1950000 <= s["id"] < 2000000]
+    sample = chains[:(300 if tier == "quick" else 3000)] + pool[:(500 if tier == "quick" else 6000)]
+    for desc, case in scopecheck.validate(ck, sample, "CalcScope: the front end's tree of every statement is the tree that was written, in every context"):
+        ck.violation(desc, case)
     ck.cov["rule"] = props.c12_rule
     ck.assumptions += ["CalcSem.tla as evaluated by TLC is the oracle; Unspecified sessions are only checked for no-crash"]
     return ck.finish()
